@@ -1,6 +1,6 @@
 /*VERIF
 { "tu": "src/apply.c", "enforce": "_dispatch_apply_invoke2", "props": ["C10","C05"], "nondet_volatile": true, "timeout": 200,
-  "assumes": ["rely: da_index only grows (other helpers only fetch-and-increment it); distinctness of the claimed indices across helpers is the atomicity of fetch-add (trusted primitive)"],
+  "assumes": ["autorelease-pool hooks are installed whenever DISPATCH_INVOKE_AUTORELEASE_ALWAYS is set: dispatch_invoke_with_autoreleasepool tells the compiler that the pool is non-NULL (DISPATCH_COMPILER_CAN_ASSUME(pool)); without hooks _dispatch_autorelease_pool_push() returns NULL and that hint is false (undefined behaviour of the real code on this platform, outside the listed properties; reported in DESIGN.md 10.6, not repaired)", "rely: da_index only grows (other helpers only fetch-and-increment it); distinctness of the claimed indices across helpers is the atomicity of fetch-add (trusted primitive)"],
   "stub_note": "client work function, thread event signal/wait/destroy, continuation free, thread frame/context and priority bookkeeping: stubs with ghost flags" }
 VERIF*/
 #ifdef VERIF_PRE
@@ -33,7 +33,8 @@ static inline void _dispatch_thread_frame_pop(dispatch_thread_frame_t dtf) { (vo
 static inline dispatch_priority_t _dispatch_set_basepri(dispatch_priority_t dbp) { (void)dbp; return 0; }
 static inline void _dispatch_reset_basepri(dispatch_priority_t dbp) { (void)dbp; }
 struct dispatch_lane_s H_q;
-void *_dispatch_autorelease_pool_push(void) { return 0; }
+/* models the autorelease hooks being installed (non-NULL pool): see "assumes" */
+void *_dispatch_autorelease_pool_push(void) { static char pool_token; return &pool_token; }
 void _dispatch_autorelease_pool_pop(void *context) { (void)context; }
 VERIF_LOOP_CONTRACT(_dispatch_apply_invoke2, 0,
 	__CPROVER_assigns(idx, done, da->da_index, H_calls, H_bad, H_order_bad, VERIF_GHOST)
